@@ -19,7 +19,7 @@
 (*  "jsat": Galilean satellites, jovicentric rectangular positions (in     *)
 (*          Jupiter radii) at t and t + 1 minute                           *)
 (***************************************************************************)
-EXTENDS TraceKit, Fix
+EXTENDS TraceKit, Calendar, Fix
 
 Near(x, y, tol) == Le(Abs(Sub(x, y)), tol)
 Norm2(v) == Add(Add(Mul(v[1], v[1]), Mul(v[2], v[2])), Mul(v[3], v[3]))
@@ -97,7 +97,91 @@ VerdictLibr ==
 \cup Viol("LIBRATION_PHYSICAL_SMALL", Le(DistMod(Ev.lp, 360), Dec(1, 1)) /\ Le(Abs(Ev.bp), Dec(1, 1)))
 \cup Viol("LIBRATION_OPTICAL_RANGE", Le(DistMod(Ev.lo, 360), Dec(82, 1)) /\ Le(Abs(Ev.bo), Dec(70, 1)))
 
-Verdict == CASE Ev.k = "sunphys" -> VerdictSunPhys [] Ev.k = "ring" -> VerdictRing [] Ev.k = "libr" -> VerdictLibr
+\* ---- static helpers ------------------------------------------------------------------
+Sixty == FromInt(60)
+Recomb(d, m, sec) == Add(FromInt(d), Add(DivInt(FromInt(m), 60), DivInt(sec, 3600)))
+VerdictStat ==
+     \* deg2dms: integral degrees and minutes, seconds in [0, 60), sign +-1, the pieces recombine to the value (mod 360)
+     Viol("DEG2DMS_FIELDS", Ev.d >= 0 /\ Ev.m \in 0..59 /\ Ge(Ev.s, Zero) /\ Lt(Ev.s, Sixty) /\ Ev.sg \in {1, -1})
+\cup Viol("DEG2DMS_RECOMBINES",
+          Ev.d >= 0 /\ Ev.m >= 0 =>
+            LET mag == Recomb(Ev.d, Ev.m, Ev.s) IN
+            WithinMod(IF Ev.sg = 1 THEN mag ELSE Neg(mag), Ev.x, 360, Add(Dec(1, 9), Mul(Dec(1, 15), Abs(Ev.x)))))
+\cup Viol("REDUCE_DEG", /\ Lt(Abs(Ev.rd), FromInt(360)) /\ WithinMod(Ev.rd, Ev.x, 360, Add(Dec(1, 10), Mul(Dec(1, 15), Abs(Ev.x))))
+                        /\ (IsZero(Ev.rd) \/ Ev.rd.s = Ev.x.s))
+\cup Viol("DMS2DEG_INVERTS_DEG2DMS", WithinMod(Ev.back, Ev.x, 360, Add(Dec(1, 9), Mul(Dec(1, 15), Abs(Ev.x)))))
+
+VerdictCal ==
+     Viol("IS_LEAP", (Ev.leap = 1) <=> Leap(Ev.y))
+     \* a date belongs to the Julian calendar iff it precedes 1582-10-05
+\cup Viol("IS_JULIAN", (Ev.jul = 1) <=> (Ev.y < 1582 \/ (Ev.y = 1582 /\ (Ev.m < 10 \/ (Ev.m = 10 /\ Ev.d < 5)))))
+     \* an instant belongs to the Julian calendar iff it precedes 1582-10-15 0h (JDE 2299160.5)
+\cup Viol("EPOCH_JULIAN", (Ev.ejul = 1) <=> Lt(Ev.jd, Add(FromInt(2299160), Dec(5, 1))))
+
+OrdSuffix(n) == IF (n % 100) \in 11..13 THEN "th"
+                ELSE IF n % 10 = 1 THEN "st" ELSE IF n % 10 = 2 THEN "nd" ELSE IF n % 10 = 3 THEN "rd" ELSE "th"
+VerdictOrd == Viol("ORDINAL_SUFFIX", Ev.suf = OrdSuffix(Ev.n))
+VerdictIint == Viol("IINT_IS_FLOOR", Ev.i = FloorInt(Ev.v))
+
+\* ---- orbital elements in the two frames: <<L, a, e, i, Omega, w>> (w = argument of perihelion) -----------------
+\* the frame changes i, Omega and the origin of L, not the shape (a, e), not the mean anomaly L - (Omega + w), and the
+\* mean longitudes differ by the general precession (1.3969713 deg per century +- 0.0005 T)
+VerdictElem ==
+     Viol("ELEMENTS_SHAPE_FRAME_INDEPENDENT", Ev.J[2] = Ev.M[2] /\ Ev.J[3] = Ev.M[3])
+\cup Viol("ELEMENTS_MEAN_ANOMALY_FRAME_INDEPENDENT",
+          WithinMod(Sub(Ev.J[1], Add(Ev.J[5], Ev.J[6])), Sub(Ev.M[1], Add(Ev.M[5], Ev.M[6])), 360, Add(Dec(2, 3), Mul(Dec(2, 3), Abs(Ev.T)))))
+\cup Viol("ELEMENTS_PRECESSION_OF_LONGITUDE",
+          WithinMod(Sub(Ev.M[1], Ev.J[1]), Mul(Dec(13969713, 7), Ev.T), 360, Add(Dec(1, 3), Mul(Dec(2, 3), Mul(Ev.T, Ev.T)))))
+VerdictMnode == Viol("TRUE_NODE_NEAR_MEAN_NODE", Le(DistMod(Sub(Ev.tn, Ev.mn), 360), FromInt(2)))
+VerdictRingEl ==
+     Viol("RING_INCLINATION_RANGE", Ge(Ev.inc, FromInt(27)) /\ Le(Ev.inc, FromInt(29)))
+\cup Viol("RING_NODE_PRECESSES", LET d == Mod(Sub(Ev.n1, Ev.n0), 360) IN Ge(d, Dec(12, 1)) /\ Le(d, Dec(16, 1)))
+
+\* ---- spherical geometry helpers ----------------------------------------------------------
+Chord2(u, v) == Norm2(<<Sub(u[1], v[1]), Sub(u[2], v[2]), Sub(u[3], v[3])>>)
+VerdictParal == Viol("PARALLACTIC_ANTISYMMETRIC", WithinMod(Ev.q2, Neg(Ev.q1), 360, Dec(1, 9)))
+VerdictEclHor ==
+     Viol("ECLIPTIC_HORIZON_OPPOSITE_POINTS", WithinMod(Sub(Ev.l2, Ev.l1), FromInt(180), 360, Dec(1, 9)))
+\cup Viol("ECLIPTIC_HORIZON_ANGLE_RANGE", Ge(Ev.inc, Zero) /\ Le(Ev.inc, FromInt(180)))
+     \* the ecliptic point of that longitude is on the horizon (through the library's own, C05-checked, conversions)
+\cup Viol("ECLIPTIC_HORIZON_POINT_ON_HORIZON", Le(Abs(Ev.el), Dec(1, 6)))
+VerdictDph ==
+     \* (the library measures J from the same side in both hemispheres: 90 - phi at the celestial equator, obtuse in the south)
+     Viol("DIURNAL_PATH_RANGE", Ge(Ev.j, Zero) /\ Le(Ev.j, FromInt(180)))
+\cup Viol("DIURNAL_PATH_SYMMETRIC", Near(Ev.j, Ev.jm, Dec(1, 9)))
+\cup Viol("DIURNAL_PATH_EQUATOR", Near(Ev.j0, Sub(FromInt(90), Ev.phi), Dec(1, 9)))
+VerdictMinSep ==
+  IF Ev.oc # "ok" THEN {"MINSEP_TOTAL"} ELSE
+     Viol("MINSEP_NOT_ABOVE_TABULATED", \A i \in 1..3 : Le(Ev.dmin, Add(Ev.seps[i], Dec(1, 5))))      \* the helper works on rectangular differences in arcseconds: good to ~1e-6 degree
+\cup Viol("MINSEP_NON_NEGATIVE", Ge(Ev.dmin, Zero))
+VerdictParab ==
+     \* at the nodes the true anomaly is -w (ascending) and 180 - w (descending): r (1 + cos v) = 2 q
+     Viol("PARABOLIC_NODE_RADIUS", /\ Near(Mul(Ev.ra, Add(One, Ev.cw)), MulInt(Ev.q, 2), Mul(Dec(1, 9), Add(Ev.ra, One)))
+                                   /\ Near(Mul(Ev.rd, Sub(One, Ev.cw)), MulInt(Ev.q, 2), Mul(Dec(1, 9), Add(Ev.rd, One))))
+VerdictRho == Viol("RHO_IS_NORM_OF_COMPONENTS",
+                   Near(Mul(Ev.rho, Ev.rho), Add(Mul(Ev.rs, Ev.rs), Mul(Ev.rc, Ev.rc)), Dec(4, 5)))
+\* total proper motion is the same in both frames (the function takes Angles in degrees and returns plain floats in
+\* radians, although its docstring promises Angles; everything in micro-radians here)
+VerdictPm ==
+  LET eq == Add(Mul(Mul(Ev.pma, Ev.cd), Mul(Ev.pma, Ev.cd)), Mul(Ev.pmd, Ev.pmd))
+      ec == Add(Mul(Mul(Ev.pml, Ev.cb), Mul(Ev.pml, Ev.cb)), Mul(Ev.pmb, Ev.pmb))
+  IN Viol("PROPER_MOTION_MAGNITUDE_INVARIANT", Near(eq, ec, Add(Mul(Dec(1, 6), eq), Dec(1, 12))))
+VerdictMis ==
+     Viol("MOTION_IN_SPACE_NO_MOTION", Le(Chord2(Ev.u1, Ev.u0), Dec(1, 16)))
+\cup Viol("MOTION_IN_SPACE_NO_TIME", Le(Chord2(Ev.u2, Ev.u0), Dec(1, 16)))
+\* aberration (20.5 arcsec) plus nutation (17.2 arcsec / 9.2 arcsec): the apparent place is within 45 arcsec of the mean one
+VerdictApp == Viol("APPARENT_PLACE_DISPLACEMENT", Le(Chord2(Ev.u1, Ev.u0), Dec(5, 8)))
+\* heliocentric direction of a minor body = direction of the verified two-body position (1e-4 degree)
+VerdictMhel ==
+  IF Ev.oc # "ok" THEN (IF Ge(Ev.u[1], Zero) /\ FALSE THEN {} ELSE {"MINOR_HELIOCENTRIC_TOTAL"}) ELSE
+     Viol("MINOR_HELIOCENTRIC_DIRECTION", Le(Chord2(Ev.u, Ev.h), Dec(4, 12)))
+
+Verdict == CASE Ev.k = "stat" -> VerdictStat [] Ev.k = "cal" -> VerdictCal [] Ev.k = "ord" -> VerdictOrd [] Ev.k = "iint" -> VerdictIint
+             [] Ev.k = "elem" -> VerdictElem [] Ev.k = "mnode" -> VerdictMnode [] Ev.k = "ringel" -> VerdictRingEl
+             [] Ev.k = "paral" -> VerdictParal [] Ev.k = "eclhor" -> VerdictEclHor [] Ev.k = "dph" -> VerdictDph
+             [] Ev.k = "minsep" -> VerdictMinSep [] Ev.k = "parab" -> VerdictParab [] Ev.k = "rho" -> VerdictRho
+             [] Ev.k = "pm" -> VerdictPm [] Ev.k = "mis" -> VerdictMis [] Ev.k = "app" -> VerdictApp [] Ev.k = "mhel" -> VerdictMhel
+             [] Ev.k = "sunphys" -> VerdictSunPhys [] Ev.k = "ring" -> VerdictRing [] Ev.k = "libr" -> VerdictLibr
              [] Ev.k = "refr" -> VerdictRefr [] Ev.k = "carr" -> VerdictCarr [] Ev.k = "epk" -> VerdictEpk
              [] Ev.k = "angv" -> VerdictAngv [] Ev.k = "mag" -> VerdictMag [] Ev.k = "moonk" -> VerdictMoonk
              [] Ev.k = "jsat" -> VerdictJsat [] OTHER -> {"UNKNOWN_KIND"}
